@@ -118,7 +118,10 @@ def run(chk):
             # contexts that exist before the records are extended (a long-lived Connection's context) and keep their version
             old_ctx = {p: ConnectionContext(protocol_version=p) for p in mc.KNOWN_PROTOCOL_VERSIONS}
             for cx in old_ctx.values():
-                cx.protocol_later_eq(cx.protocol_version)
+                try:
+                    cx.protocol_later_eq(cx.protocol_version)       # used once, so that anything it caches is cached
+                except Exception:       # noqa  (judged below, after the re-initialisation)
+                    pass
             for op in row['hist']:
                 if op['op'] == 'extend':
                     mc.KNOWN_MINECRAFT_VERSION_RECORDS.insert(op['pos'], Version(op['id'], op['p'], op['sup']))
